@@ -41,6 +41,9 @@ type Scenario struct {
 	Thorough   Bounds
 	NoRace     bool // exclude from the C13 race-mode exploration
 	RacePB     int  // preemption/deviation bound for the quick race-mode exploration (default 1)
+	// PanicsOK: a panic in a library-spawned goroutine is outside the property (e.g. a panicking
+	// user callback run asynchronously); such executions are not judged.
+	PanicsOK bool
 	// ThoroughOnly scenarios run only in the thorough tier; QuickOnly only in the quick tier.
 	ThoroughOnly bool
 	QuickOnly    bool
@@ -244,6 +247,10 @@ func RunOne(s *Scenario, pfx []int32, dev int, trace bool) vsched.Result {
 func judge(s *Scenario, r *vsched.Result) {
 	switch r.EndReason {
 	case vsched.EndPanic:
+		if s.PanicsOK {
+			r.EndReason, r.Oracle, r.Msg = vsched.EndComplete, "", ""
+			return
+		}
 		r.Oracle = "panic"
 		if len(r.Panics) > 0 {
 			r.Msg = firstLine(r.Panics[0])
